@@ -621,6 +621,32 @@ func (h *holder) holdToken(name string, tk tokens.Token) {
 	h.hold(name+".Context", tk.Context)
 	h.hold(name+".KeyID", tk.KeyID)
 	h.hold(name+".Authenticator", tk.Authenticator)
+	h.hold(name+".Marshal()", tk.Marshal())
+	h.hold(name+".AuthenticatorInput()", tk.AuthenticatorInput())
+}
+
+// marshalStorm makes n encoding calls on OTHER objects of the same shapes and sizes (tokens of the type, a challenge,
+// fresh request structs): storage recycled process-wide (round-robin buffer sets, pools with a capacity) comes back to
+// a value handed out earlier only after that many calls.
+func marshalStorm(t *rapid.T, typ uint16, n int) {
+	base := gen.Bytes(t, 32, 32, "stormField")
+	for i := 0; i < n; i++ {
+		f := append([]byte{}, base...)
+		f[0], f[1] = byte(i), byte(i>>8)
+		tk := tokens.Token{TokenType: typ, Nonce: f, Context: f, KeyID: f, Authenticator: bytes.Repeat(f[:1], gen.AuthLen(typ))}
+		_ = tk.Marshal()
+		_ = tk.AuthenticatorInput()
+		switch i % 4 {
+		case 0:
+			_ = (&type1.BasicPrivateTokenRequest{TokenKeyID: f[0], BlindedReq: bytes.Repeat(f[:1], 49)}).Marshal()
+		case 1:
+			_ = (&type2.BasicPublicTokenRequest{TokenKeyID: f[0], BlindedReq: bytes.Repeat(f[:1], 256)}).Marshal()
+		case 2:
+			_ = (&type5.BatchedPrivateTokenRequest{TokenKeyID: f[0], BlindedReq: [][]byte{f, f}}).Marshal()
+		case 3:
+			_ = tokens.TokenChallenge{TokenType: typ, IssuerName: "issuer.example", RedemptionNonce: f, OriginInfo: []string{"origin.example"}}.Marshal()
+		}
+	}
 }
 
 func (h *holder) check() error {
@@ -633,7 +659,7 @@ func (h *holder) check() error {
 }
 
 func TestHistories(t *testing.T) {
-	s := rt.S("histories").SetRule("on one request state and its issuer (types 1,2,3,5): the request's fields and Marshal() output, issuer responses and finalized tokens are held (same memory) and copied as soon as they are handed out; then a drawn sequence of 2..8 further calls - finalize with the honest response, finalize with a corrupted response, Marshal again, evaluate the request again, create another request from the same client/issuer, verify the token - after each of which every held value must equal its copy. non-trivial = history with >= 2 calls after the first hand-out; distinct by (type, request bytes, sequence)")
+	s := rt.S("histories").SetRule("on one request state and its issuer (types 1,2,3,5): the request's fields and Marshal() output, issuer responses and finalized tokens are held (same memory) and copied as soon as they are handed out; then a drawn sequence of 2..8 further calls - finalize with the honest response, finalize with a corrupted response, Marshal again, evaluate the request again, create another request from the same client/issuer, verify the token, 9..300 encoding calls on other tokens / requests / challenges of the same sizes - after each of which every held value must equal its copy. non-trivial = history with >= 2 calls after the first hand-out; distinct by (type, request bytes, sequence)")
 	rt.Check(t, 200, 40000, func(t *rapid.T) {
 		defer rt.Entropy(gen.Seed().Draw(t, "entropy"))()
 		typ := gen.Pick(t, []uint16{1, 2, 3, 5}, "type")
@@ -673,9 +699,11 @@ func TestHistories(t *testing.T) {
 		s.Eval()
 		s.Class(gen.TypeName(typ))
 		for i := 0; i < n; i++ {
-			action := gen.Pick(t, []string{"finalize", "finalize", "finalize-corrupted", "marshal", "evaluate-again", "new-request", "verify-token"}, "action")
+			action := gen.Pick(t, []string{"finalize", "finalize", "finalize-corrupted", "marshal", "evaluate-again", "new-request", "verify-token", "marshal-storm"}, "action")
 			seq = append(seq, action)
 			switch action {
+			case "marshal-storm":
+				marshalStorm(t, typ, gen.Pick(t, []int{9, 33, 70, 130, 300}, "stormSize"))
 			case "finalize":
 				toks, err := sess.Finalize(resp)
 				if err != nil {
@@ -707,7 +735,7 @@ func TestHistories(t *testing.T) {
 					h.hold(fmt.Sprintf("issuer response from call %d", i), r2)
 				}
 			case "new-request":
-				o := gen.SessionOpts{OKey: sess.OKey, RKeyIdx: rsaIndex(sess), MaxBatch: 2}
+				o := gen.SessionOpts{OKey: sess.OKey, RKeyIdx: rsaIndex(sess), RKey: sess.RKey, MaxBatch: 2}
 				if typ == 3 {
 					o.Issuer3, o.Origin = sess.Issuer3, &sess.Origin
 				}
@@ -861,3 +889,103 @@ func rsaIndex(s *gen.Session) int {
 }
 
 var _ = big.NewInt
+
+// TestConstructorArguments: memory the caller passes to a CONSTRUCTOR is still the caller's: the issuer list handed to
+// NewBasicBatchedIssuer as list... must come back unchanged (same issuers, same order), and the batch issuer must not
+// depend on it afterwards (the caller puts other issuers into its slice; a batch evaluated before and after must be
+// answered the same way - that second part is OBSERVED, not asserted: the property is about writes).
+func TestConstructorArguments(t *testing.T) {
+	s := rt.S("constructor-arguments").SetRule("2..5 issuers of types 1 and 2 in a drawn order in a caller-owned slice with spare capacity, passed as list... to NewBasicBatchedIssuer: the slice (and its spare capacity) is unchanged afterwards; an honest two-request batch is answered. Observed, not asserted: whether the issuer follows later changes of the caller's slice. non-trivial = order not sorted by type; distinct by (keys, order)")
+	rt.Check(t, 40, 6000, func(t *rapid.T) {
+		defer rt.Entropy(gen.Seed().Draw(t, "entropy"))()
+		seed := gen.Seed().Draw(t, "keyseed")
+		k1 := gen.OPRFKey(oprf.SuiteP384, seed)
+		rsaIdx := gen.RSAKey().Draw(t, "rsakey")
+		i1 := gen.Batch1{I: type1.NewBasicPrivateIssuer(k1)}
+		i2 := gen.Batch2{I: type2.NewBasicPublicIssuer(gen.RSAPool()[rsaIdx])}
+		other1 := gen.Batch1{I: type1.NewBasicPrivateIssuer(gen.OPRFKey(oprf.SuiteP384, append(append([]byte{}, seed...), 1)))}
+		other2 := gen.Batch2{I: type2.NewBasicPublicIssuer(gen.RSAPool()[(rsaIdx+1)%8])}
+		list := []batched.Issuer{i2, i1}
+		// (further issuers must not share a truncated key id with one of the same type: which of two such issuers answers is
+		// decided by their order, and that is not what this test is about)
+		add := func(x batched.Issuer) {
+			for _, y := range list {
+				if y.Type() == x.Type() && y.TokenKeyID()[31] == x.TokenKeyID()[31] {
+					return
+				}
+			}
+			list = append(list, x)
+		}
+		for n := gen.Uniform(t, 4, "extra"); n > 0; n-- {
+			if rapid.Bool().Draw(t, "extraType1") {
+				add(gen.Batch1{I: type1.NewBasicPrivateIssuer(gen.OPRFKey(oprf.SuiteP384, append(append([]byte{}, seed...), byte(10+n))))})
+			} else {
+				add(other2)
+			}
+		}
+		list = rapid.Permutation(list).Draw(t, "order")
+		arg := make([]batched.Issuer, len(list), len(list)+3)
+		copy(arg, list)
+		spare := arg[:cap(arg)]
+		s.Eval()
+		sorted := true
+		for i := 1; i < len(list); i++ {
+			if list[i-1].Type() > list[i].Type() {
+				sorted = false
+			}
+		}
+		if !sorted {
+			s.Nontrivial(seed, []byte(fmt.Sprint(rsaIdx, len(list))))
+		}
+		bi := batched.NewBasicBatchedIssuer(arg...)
+		for i := range spare {
+			if (i < len(list) && spare[i] != list[i]) || (i >= len(list) && spare[i] != nil) {
+				rt.Fail(t, "C16/constructor/argument-written", "NewBasicBatchedIssuer(list...) changed the caller's slice at index %d (length %d, capacity %d)", i, len(list), cap(arg))
+				return
+			}
+		}
+		sa, err1 := gen.NewSession(t, 1, gen.SessionOpts{OKey: k1})
+		sb, err2 := gen.NewSession(t, 2, gen.SessionOpts{RKeyIdx: rsaIdx})
+		if err1 != nil || err2 != nil {
+			t.Fatalf("harness: %v %v", err1, err2)
+		}
+		br, err := batched.NewBasicClient().CreateTokenRequest([]tokens.TokenRequestWithDetails{sa.State1.Request(), sb.State2.Request()})
+		if err != nil {
+			t.Fatalf("harness: %v", err)
+		}
+		// Observation only (not asserted - the property speaks about writes, not about retention): does the batch issuer
+		// still refer to the caller's slice? The caller puts other issuers into it and the same batch is evaluated again.
+		answers := func() bool {
+			enc, err := bi.EvaluateBatch(br)
+			if err != nil {
+				return false
+			}
+			resps, err := batched.UnmarshalBatchedTokenResponses(enc)
+			if err != nil || len(resps) != 2 || len(resps[0]) == 0 || len(resps[1]) == 0 {
+				return false
+			}
+			_, e1 := sa.Finalize(resps[0])
+			_, e2 := sb.Finalize(resps[1])
+			return e1 == nil && e2 == nil
+		}
+		if !answers() {
+			rt.Fail(t, "C16/constructor/honest-batch-refused", "batch issuer built from a caller-owned slice does not answer an honest two-request batch")
+			return
+		}
+		for i := range arg {
+			if arg[i].Type() == 1 {
+				arg[i] = other1
+			} else {
+				arg[i] = other2
+			}
+		}
+		if o := rt.GuardLite(func() {
+			if !answers() {
+				s.Class("observed:batch-issuer-follows-later-changes-of-the-callers-slice")
+			}
+		}); o.Panic != nil {
+			s.Class("observed:batch-issuer-follows-later-changes-of-the-callers-slice")
+		}
+		s.Sample(func() any { return map[string]any{"issuers": len(list)} })
+	})
+}
